@@ -46,11 +46,48 @@ def fresh_db(seed):
 
 
 def snapshot(c):
-    out = {}
-    for name in TABLES:
-        rows = c.execute('SELECT rowid, * FROM "%s" ORDER BY rowid' % name).fetchall()
-        out[name] = [[[type(v).__name__, repr(v)] for v in row] for row in rows]
-    return out
+    return {name: c.execute('SELECT rowid, * FROM "%s" ORDER BY rowid' % name).fetchall() for name in TABLES}
+
+
+def show(rows):
+    return [[[type(v).__name__, repr(v)] for v in row] for row in rows[:12]]
+
+
+def cell_equal(x, y, tol):
+    """tol = 0: same Python type and same value (what a literal must satisfy).  tol > 0 (the statement computes with
+    expressions): numbers are compared by value up to a relative tolerance, because the renderer may re-associate
+    x+(y-z) / x*(y*z) — identities C02's statement allows — which changes the last bits of a floating-point result
+    (or whether an intermediate integer overflow turned it into a REAL)."""
+    if tol and isinstance(x, (int, float)) and isinstance(y, (int, float)):
+        fx, fy = float(x), float(y)
+        return fx == fy or abs(fx - fy) <= tol * max(1.0, abs(fx), abs(fy))
+    if tol and isinstance(x, str) and isinstance(y, str) and x != y:
+        # a computed number stored in a TEXT-affinity column is its decimal text
+        try:
+            fx, fy = float(x), float(y)
+        except ValueError:
+            return False
+        return fx == fy or abs(fx - fy) <= tol * max(1.0, abs(fx), abs(fy))
+    return type(x) is type(y) and x == y
+
+
+def row_equal(r1, r2, tol):
+    if r1 is None or r2 is None:
+        return r1 is None and r2 is None
+    return len(r1) == len(r2) and all(cell_equal(x, y, tol) for x, y in zip(r1, r2))
+
+
+def rows_equal(a, b, tol):
+    return len(a) == len(b) and all(row_equal(x, y, tol) for x, y in zip(a, b))
+
+
+def state_equal(sa, sb, tol):
+    return all(rows_equal(sa[t], sb[t], tol) for t in TABLES)
+
+
+def has_expression(spec):
+    return (spec["kind"] == "update" and any(v[0] == "t" for _, v in spec["sets"])) or \
+           (spec["kind"] == "insert-select" and any(t[0] != "field" for t in spec["sels"]))
 
 
 # ---------------------------------------------------------------------------------------------
@@ -232,21 +269,20 @@ def limited(text, spec, seed):
             out.update(verdict="rejected", error="%s: %s" % (type(e).__name__, e))
             return out
         tb = spec["table"]
+        tol = 1e-9 if has_expression(spec) else 0
         sa, so = snapshot(a), snapshot(o)
         for other in TABLES:
-            if other != tb and sa[other] != so[other]:
-                out.update(verdict="state-differs", table=other, got=sa[other][:12], expected=so[other][:12])
+            if other != tb and not rows_equal(sa[other], so[other], 0):
+                out.update(verdict="state-differs", table=other, got=show(sa[other]), expected=show(so[other]))
                 return out
         ra, rb, ro = _rows(a, tb), _rows(b, tb), _rows(o, tb)
         touched = 0
         for rid, orig in ro.items():
             got, ref = ra.get(rid), rb.get(rid)
-            if got == orig and type(got) is type(orig) and [type(x) for x in got] == [type(x) for x in orig]:
+            if row_equal(got, orig, 0):
                 continue
             touched += 1
-            same_as_ref = (got is None and ref is None) or (got is not None and ref is not None and got == ref
-                                                             and [type(x) for x in got] == [type(x) for x in ref])
-            if not same_as_ref:
+            if not row_equal(got, ref, tol):
                 out.update(verdict="state-differs", table=tb, got=[repr(got)], expected=[repr(ref), "or untouched", repr(orig)])
                 return out
         extra = [rid for rid in ra if rid not in ro]
@@ -291,10 +327,11 @@ def differential(text, spec, seed):
             got_err = "%s: %s" % (type(e).__name__, e)
             a.rollback()
         sa, sb = snapshot(a), snapshot(b)
+        same = state_equal(sa, sb, 1e-9 if has_expression(spec) else 0)
         out = {"reference": ref_sql, "reference_params": [repr(p) for p in ref_params]}
         if got_err and ref_err:
             # both rejected (constraint, arity): consistent as long as nothing changed on either side
-            out["verdict"] = "same" if sa == sb else "state-differs"
+            out["verdict"] = "same" if same else "state-differs"
             out["both_rejected"] = [got_err, ref_err]
         elif got_err:
             out["verdict"] = "rejected"
@@ -303,13 +340,13 @@ def differential(text, spec, seed):
             out["verdict"] = "reference-rejected"
             out["error"] = ref_err
         else:
-            out["verdict"] = "same" if sa == sb else "state-differs"
+            out["verdict"] = "same" if same else "state-differs"
         if out["verdict"] == "state-differs":
             for tname in sa:
-                if sa[tname] != sb[tname]:
+                if not rows_equal(sa[tname], sb[tname], 1e-9 if has_expression(spec) else 0):
                     out["table"] = tname
-                    out["got"] = sa[tname][:12]
-                    out["expected"] = sb[tname][:12]
+                    out["got"] = show(sa[tname])
+                    out["expected"] = show(sb[tname])
                     break
         return out
     finally:
